@@ -262,8 +262,14 @@ def condexpr_pred(force_else):
         elif no_else:
             o = t.orelse
             ok = (isinstance(o, ast.Call) and emit.call_name(o) == "cond_expr_undefined" and len(o.args) == 1 and not o.keywords
-                  and isinstance(o.args[0], ast.Constant) and isinstance(o.args[0].value, str)
-                  and "inline if-expression" in o.args[0].value and "no else section" in o.args[0].value)
+                  and isinstance(o.args[0], ast.Constant) and isinstance(o.args[0].value, str))
+            if ok:
+                # the hint: written out, or the repr() of the message (then the placeholder's term spells it)
+                hint = o.args[0].value
+                q = ph.get(f"'{hint}'")
+                if isinstance(q, tuple) and q[0] == "repr":
+                    hint = str(q[1])
+                ok = "inline if-expression" in hint and "no else section" in hint
             if not ok:
                 fails.append(f"missing else does not produce cond_expr_undefined(<hint: ... no else section ...>): {ast.unparse(o)[:120]}")
             if len(_holes(tree, ph)) != 2:
@@ -942,7 +948,7 @@ def emission_tasks():
                        node_fields=_present("start", "stop", "step")))
     for kind in ("Tuple", "List", "Dict"):
         ts.append(EmitTask(PROP, f"C02.emit.{kind}", V + kind, getattr(N, kind), seq_pred(kind), replay_fn=R, min_paths=3))
-    ts.append(EmitTask(PROP, "C02.emit.Const", V + "Const", N.Const, const_pred, mode="raw", replay_fn=R, min_paths=2))
+    ts.append(EmitTask(PROP, "C02.emit.Const", V + "Const", N.Const, const_pred, mode="raw", replay_fn=R, min_paths=2, path_filter=_const_path_feasible))
     ts.append(_ConstTask(PROP, "C02.emit.Const.operand", const_atomic, "bounded", replay_const_atomic))
     ts.append(EmitTask(PROP, "C02.emit.Name", V + "Name", N.Name, name_pred, replay_fn=R, min_paths=4))
     ts.append(_PairsTask(PROP, "C02.names.identifier_injective", local_identifiers, "bounded", replay_local_identifiers))
@@ -959,7 +965,29 @@ def emission_tasks():
     ts.append(_TaggedEmitTask(PROP, "C02.emit.signature[* and ** present]", V + "Call", N.Call, ordered_signature_pred(True), replay_fn=R, min_paths=4,
                        install_opts={"modular_signature": False}, node_fields=_present("dyn_args", "dyn_kwargs"), path_filter=_sig_path_filter,
                        env_fields={"is_async": False, "sandboxed": False}))
+    # a path whose condition is contradictory is no path (the engine's own feasibility test runs with a short timeout and can let
+    # one through on a loaded machine): decided here with a generous timeout before the predicate is applied
+    for t in ts:
+        if isinstance(t, EmitTask):
+            pf = t.path_filter
+            t.path_filter = (lambda sc, pf=pf: _feasible(sc) and (pf is None or pf(sc)))
     return ts
+
+
+def _feasible(sc):
+    from pyvc.smt import check_sat
+    try:
+        return check_sat(list(sc.pc), 8000, 0, use_cvc5=False).status != "unsat"
+    except Exception:  # noqa
+        return True
+
+
+def _const_path_feasible(sc):
+    """Python fact the engine does not know: a value whose exact type is int is no float (`type(v) is int` and
+    `isinstance(v, float)` on one path is infeasible)"""
+    exact_int = any("py_type_obj(node.value) == host:int" in str(c) and not str(c).startswith("Not(") for c in sc.pc)
+    isf = _find_app(sc.pc, "isinstance:builtins.float")
+    return not (exact_int and isf is not None and sc.holds(isf))
 
 
 def _sig_path_filter(sc):
